@@ -1,5 +1,8 @@
 import CvxVerif.Gen.C19Safe
 import CvxVerif.Gen.C19SafeL
+import CvxVerif.Gen.C19SafeB
+import Mathlib.Tactic.Linarith
+import Mathlib.Tactic.Ring
 import CvxVerif.Proofs.Dense
 /-!
 # C19 — no argument values make the C extension access memory outside its matrices
@@ -28,5 +31,30 @@ theorem C19_index2_safe (m n : Nat) (i j : Int) (hi : outRng i m = false) (hj : 
     _ = (cwrap j n + 1) * m := by rw [Nat.add_mul]; omega
     _ ≤ n * m := Nat.mul_le_mul_right m h2
     _ = m * n := Nat.mul_comm n m
+
+/-- **Sparse paths of `base.gemv` / `base.symv`.**  The sparse kernels split the offset into `oj = oA / nrows`, `oi = oA % nrows` and walk the
+columns `oj, …, oj + n − 1` of the compressed-column arrays.  The block bound that the generated theorems `C19_safe_base_gemv` /
+`C19_safe_base_symv` derive from the wrappers' checks (`MatIn (nrows·ncols) oA m n (max 1 nrows)`) implies that the matrix has at least one row
+(no division by zero) and that every column visited exists: `oj + n ≤ ncols`. -/
+theorem C19_sparse_columns (r c oA m n : Int) (hr : 0 ≤ r) (hm : 0 < m) (hn : 0 < n)
+    (h : CWrap.MatIn (r * c) oA m n (max 1 r)) : 1 ≤ r ∧ 0 ≤ oA / r ∧ oA / r + n ≤ c := by
+  obtain ⟨ho, _, hb⟩ := h
+  have hb := hb hm hn
+  have hr1 : 1 ≤ r := by
+    by_contra hlt
+    have : r = 0 := by omega
+    subst this
+    simp at hb
+    have : (0 : Int) ≤ (n - 1) * 1 := by nlinarith
+    omega
+  have hmax : max 1 r = r := max_eq_right hr1
+  rw [hmax] at hb
+  have hq : oA / r * r ≤ oA := Int.ediv_mul_le oA (by omega)
+  have hq0 : 0 ≤ oA / r := Int.ediv_nonneg ho hr
+  refine ⟨hr1, hq0, ?_⟩
+  -- (oA / r + n - 1) * r ≤ oA + (n - 1) * r < r * c
+  have h1 : (oA / r + n - 1) * r < c * r := by nlinarith
+  have h2 : oA / r + n - 1 < c := lt_of_mul_lt_mul_right h1 (by omega)
+  omega
 
 end CvxVerif.C19
